@@ -246,6 +246,17 @@ def queries(ctx):
     cfgs = [("allon", set(allm)), ("alloff", set())]
     for k in range(2 if ctx["tier"] == "quick" else 8):
         cfgs.append(("rnd%d" % k, set(m for m in allm if rnd.random() < 0.5)))
+    # builds in which a name that is a proper prefix of another registered name is switched off (e.g. tty off, tty_uid on)
+    import itertools
+    macro_of = {}
+    for reg, path, nsym, psym, fn_of in REGS:
+        n, p = extract(path, nsym, psym)
+        for g, nm in n:
+            if nm and g:
+                macro_of[(reg, nm)] = g[-1][0]
+    fam = sorted({macro_of[(reg, a)] for reg in lists for a in lists[reg] for b in lists[reg] if a != b and b.startswith(a) and (reg, a) in macro_of})
+    for m in (fam if ctx["tier"] == "thorough" else fam[:6]):
+        cfgs.append(("off_" + m.split("_ENABLED_")[-1], set(allm) - {m}))
     qs = []
     for cname, on in cfgs:
         key = "C13_" + cname
@@ -254,5 +265,9 @@ def queries(ctx):
         qs.append(Q(name="lookup_" + cname, harness="C13_registry.c", variant=key,
                     units=["src/datasourceregistry.c", "src/filterregistry.c", "src/outputregistry.c", "src/genericregistry.c"],
                     models=(), unwind=45, unwindset=("strcmp.0:30",), timeout=600, mem_gb=6, flags=("--object-bits", "10"),
-                    bounds="concrete build '%s' (%d of %d switches on): for every index i below the registry's count, calling by the i-th name reaches the implementation conventionally named after it; disabled names are unknown" % (cname, len(on), len(allm))))
+                    bounds="concrete build '%s' (%d of %d switches on): for every index i below the registry's count, calling by the i-th name reaches the implementation conventionally named after it" % (cname, len(on), len(allm))))
+        qs.append(Q(name="anyname_" + cname, harness="C13_registry.c", func="harness_anyname", variant=key,
+                    units=["src/datasourceregistry.c", "src/filterregistry.c", "src/outputregistry.c", "src/genericregistry.c"],
+                    models=(), unwind=47, unwindset=("strcmp.0:30",), timeout=600, mem_gb=6, flags=("--object-bits", "10"),
+                    bounds="concrete build '%s': for every name of ANY build (and an unknown one): it exists iff it is in this build's names array; switched-off names run nothing" % cname))
     return qs
